@@ -22,6 +22,8 @@ import (
 	"encoding/json"
 	"errors"
 	"fmt"
+	"os"
+	"path/filepath"
 	"strconv"
 	"strings"
 	"sync"
@@ -45,7 +47,7 @@ type Work struct {
 	CtxMode int    `json:"ctx_mode,omitempty"` // 0 simulated cancellable context, 1 context.Background(), 2 vm.Execute (no context argument)
 }
 
-const nSites = 104
+const nSites = 107
 const nWraps = 7
 
 func siteSrc(k int, id string) string {
@@ -259,8 +261,15 @@ func siteSrc(k int, id string) string {
 		return "x" + id + " = toIntSlice([1, \"a\", h(" + id + ")])\ny" + id + " = toStringSlice([1])"
 	case 102:
 		return "load(\"/nonexistent" + id + "\")"
-	default:
+	case 103:
 		return "func d" + id + "() { defer range(); defer keys([1]); h(" + id + ") }\nd" + id + "()"
+	case 104:
+		// a library file loaded at run time: its goroutines and deferred calls fail on the host side
+		return "load(libpath)"
+	case 105:
+		return "go load(libpath)\nlibfn = load(libpath2)\nlibfn(" + id + ")"
+	default:
+		return "try { load(libpath) } catch e" + id + " { h(" + id + ") }\ndefer load(libpath2)"
 	}
 }
 
@@ -344,6 +353,23 @@ type Celsius float64
 // Iface is an interface with a method; a typed nil *T stored in it is non-nil as an interface.
 type Iface interface{ M(int64) int64 }
 
+// libFiles are written once per process: scripts that `load` them start goroutines and deferred calls
+// whose Go callees panic.
+var libFiles = func() [2]string {
+	// inside the worker's working directory (the driver's scratch directory, removed after the check)
+	dir, err := filepath.Abs(fmt.Sprintf("c01lib-%d", os.Getpid()))
+	if err == nil {
+		err = os.MkdirAll(dir, 0o755)
+	}
+	if err != nil {
+		return [2]string{"/nonexistent-a", "/nonexistent-b"}
+	}
+	a, b := filepath.Join(dir, "lib_a.ank"), filepath.Join(dir, "lib_b.ank")
+	os.WriteFile(a, []byte("go keys(5)\ngo h(1)\nfunc libspawn() { go keys(7); go range(); defer keys(nil) }\nlibspawn()\n"), 0o644)
+	os.WriteFile(b, []byte("func(x) { go keys(x); go hv([x, 2]...); return h(x) }\n"), 0o644)
+	return [2]string{a, b}
+}()
+
 // T is the Go struct bound into the environment.
 type T struct {
 	hook func(string) interface{}
@@ -411,6 +437,8 @@ func (Prop) Run(t *testing.T, c *harness.Case, verbose bool) *harness.Result {
 		}
 		e := env.NewEnv()
 		core.Import(e)
+		e.Define("libpath", libFiles[0])
+		e.Define("libpath2", libFiles[1])
 		e.Define("h", func(id int64) int64 { fault("h"); return id })
 		e.Define("hid", func(x interface{}) interface{} { fault("hid"); return x })
 		e.Define("hv", func(xs ...int64) int64 { fault("hv"); return int64(len(xs)) })
